@@ -38,6 +38,15 @@ class PropBase:
     def model_case(self, case):
         return case
 
+    # -- shrinking support: how to rebuild the derived fields of a case after its AST was reduced
+    def rerender(self, case):
+        if "txns" in case and "text" in case:
+            case["text"] = common.render_journal(case["txns"], case.get("layout"))
+        return case
+
+    def shrinkable(self, case):
+        return "txns" in case and "text" in case and "files" not in case
+
     # -- judgement
     def compare(self, case, impl, model):
         return None
